@@ -418,8 +418,8 @@ var def = pbt.Def[Case]{Name: "adversarial-responder", Gen: gen, Run: judge}
 
 func TestProp(t *testing.T) {
 	outerT = t
-	pbt.Check(t, run, def, 16000, 2000000)
-	pbt.Check(t, run, defPaused, 6000, 600000)
+	pbt.Check(t, run, def, 16000, 800000)
+	pbt.Check(t, run, defPaused, 6000, 250000)
 }
 
 func TestReplay(t *testing.T) {
